@@ -1123,6 +1123,12 @@ class SpectrumResult:
 
     def __getattr__(self, name: str) -> Any:
         """Lazy computation and caching of spectral properties."""
+        if name.startswith("_"):
+            # Private/dunder names are never dynamic; avoids infinite recursion
+            # when copy/pickle probe an instance whose __dict__ is not yet set.
+            raise AttributeError(
+                f"'{type(self).__name__}' object has no attribute '{name}'"
+            )
         if name in self._cache:
             return self._cache[name]
 
